@@ -342,9 +342,11 @@ func (e *Event) DataRows(vals []Value) [][][]byte {
 	}
 	singleton := make([][]byte, n)
 	var rows [][][]byte
-	var walk func(v Value, selectedHere bool, cur [][]byte) // cur == nil: singleton context
-	walk = func(v Value, sel bool, cur [][]byte) {
-		t := v.T
+	// The walk is driven by the declaration's own type tree (t); the value
+	// only supplies the data, so values built for a structurally identical
+	// declaration (another integration on the same event) can be projected.
+	var walk func(t *Type, v Value, selectedHere bool, cur [][]byte) // cur == nil: singleton context
+	walk = func(t *Type, v Value, sel bool, cur [][]byte) {
 		sel = sel || t.Column != ""
 		switch t.Kind {
 		case KArray:
@@ -357,11 +359,11 @@ func (e *Event) DataRows(vals []Value) [][][]byte {
 					c = make([][]byte, n)
 					rows = append(rows, c)
 				}
-				walk(el, sel, c)
+				walk(t.Elem, el, sel, c)
 			}
 		case KTuple:
-			for _, f := range v.Elems {
-				walk(f, false, cur)
+			for i, f := range v.Elems {
+				walk(t.Fields[i], f, false, cur)
 			}
 		default:
 			if !sel {
@@ -387,7 +389,7 @@ func (e *Event) DataRows(vals []Value) [][][]byte {
 	}
 	for i, in := range e.Inputs {
 		if !in.Indexed {
-			walk(vals[i], false, nil)
+			walk(in, vals[i], false, nil)
 		}
 	}
 	if len(rows) == 0 {
@@ -516,4 +518,28 @@ func (e *Event) ArrayDepth() int {
 		}
 	}
 	return d
+}
+
+// CloneType deep-copies a type tree; keepCols keeps the Column annotations.
+func CloneType(t *Type, keepCols bool) *Type {
+	c := *t
+	if !keepCols {
+		c.Column = ""
+	}
+	if t.Elem != nil {
+		c.Elem = CloneType(t.Elem, keepCols)
+	}
+	c.Fields = nil
+	for _, f := range t.Fields {
+		c.Fields = append(c.Fields, CloneType(f, keepCols))
+	}
+	return &c
+}
+
+func CloneEvent(e *Event, keepCols bool) *Event {
+	c := &Event{Name: e.Name, Anon: e.Anon}
+	for _, in := range e.Inputs {
+		c.Inputs = append(c.Inputs, CloneType(in, keepCols))
+	}
+	return c
 }
